@@ -401,7 +401,7 @@ func RandVal(rng *simrt.Rand, small bool) Val {
 	n := int64(rng.Intn(1000))
 	if small {
 		n = int64(rng.Intn(3))
-		k = []string{"int", "int", "str", "bool", "dbl", "ll", "json"}[rng.Intn(7)]
+		k = []string{"int", "int", "str", "bool", "dbl", "ll", "ll", "json", "uint", "flt", "dec", "bytes"}[rng.Intn(12)]
 	}
 	switch k {
 	case "str", "bytes", "ascii":
@@ -409,6 +409,11 @@ func RandVal(rng *simrt.Rand, small bool) Val {
 	case "json", "jsonietf":
 		return Val{Kind: k, S: fmt.Sprintf(`{"v":%d}`, n)}
 	case "ll":
+		if small {
+			// lists of different lengths that share prefixes (also the empty list)
+			all := []string{"p", "q", "r"}
+			return Val{Kind: k, L: append([]string(nil), all[:rng.Intn(4)]...)}
+		}
 		return Val{Kind: k, L: []string{fmt.Sprintf("e%d", n), "z"}}
 	case "bool":
 		return Val{Kind: k, I: n % 2}
